@@ -7,7 +7,8 @@
 (*   Lookup   dir, name, res [errno, attr]      Readdir dir, res [errno, ents]*)
 (*   Getattr  path, res [errno, attr]           Readlink path, res [errno, target]*)
 (*   Getxattr path, key, res [errno, val]                                  *)
-(* attr = [ino, mode, size, nlink, uid, gid, major, minor, mtime].         *)
+(* attr = [ino, mode, size, nlink, uid, gid, rdev (hex), major, minor (as   *)
+(* unix.Major/unix.Minor decode rdev), mtime].                             *)
 EXTENDS TarMeta, Json
 
 VARIABLE l
@@ -16,11 +17,11 @@ TraceLog == ndJsonDeserialize("trace.ndjson")
 Ev == TraceLog[l]
 IsEvent(e) == l <= Len(TraceLog) /\ Ev.ev = e /\ l' = l + 1
 
-\* the code model predicts the served attributes (directory link counts and times of implicit parents are not predicted)
+\* the code model predicts the served attributes (times of implicit parents are not predicted)
 AttrMatches(c, a, p) ==
     /\ c.mode = a.mode /\ c.size = a.size /\ c.uid = a.uid /\ c.gid = a.gid
     /\ c.major = a.major /\ c.minor = a.minor
-    /\ (c.mode \div 4096 # 4 => c.nlink = a.nlink)
+    /\ c.nlink = a.nlink
     /\ (CodeIdx(CodeSource(p, 6)) # 0 => c.mtime = a.mtime)
 
 TraceInit == T = <<>> /\ P = {<<>>} /\ memo = {} /\ last = [act |-> "Init"] /\ l = 1 /\ TLCSet(1, 0)
